@@ -629,6 +629,7 @@ func (m *C08) AfterTx(e *eng.Engine, t *eng.TxRec) {
 		}
 		m.writeSet(e, t, where)
 		m.roleEffect(e, t, where)
+		ParamEffect(e, t, "C08", where)
 		if len(m.samples) < 3 && rel == "current-holder" {
 			m.samples = append(m.samples, map[string]interface{}{"step": t.Step, "msg": eng.MsgJSON(e.App.Cdc, msg), "role": r.why, "relation": rel, "outcome": "accepted"})
 		}
@@ -723,9 +724,17 @@ func (m *C08) Finish(e *eng.Engine, cov map[string]interface{}) {
 // roleEffect: a successful role-moving message must move exactly the roles it names (otherwise the
 // notion of "former role holder" is void: a revoked issuer that silently keeps the role can still act).
 func (m *C08) roleEffect(e *eng.Engine, t *eng.TxRec, where string) {
+	RoleEffectOf(e, t, "C08", where)
+}
+
+// RoleEffectOf is the role / membership effect oracle (also used by C18's configuration sweep).
+func RoleEffectOf(e *eng.Engine, t *eng.TxRec, prop, where string) {
+	if !t.OK || len(t.Msgs) != 1 {
+		return
+	}
 	pre, post := t.Pre.V(), t.Post.V()
 	bad := func(f string, a ...interface{}) {
-		e.Violate("C08", "role-change-effect", where+": "+fmt.Sprintf(f, a...))
+		e.Violate(prop, "role-change-effect", where+": "+fmt.Sprintf(f, a...))
 	}
 	switch x := t.Msgs[0].(type) {
 	case *basetypes.MsgUpdateClassIssuers:
@@ -797,6 +806,88 @@ func (m *C08) roleEffect(e *eng.Engine, t *eng.TxRec, where string) {
 	case *basetypes.MsgRemoveAllowedBridgeChain:
 		if post.BridgeChains[lower(x.ChainName)] {
 			bad("RemoveAllowedBridgeChain succeeded but %s is still allowed", x.ChainName)
+		}
+	}
+}
+
+// ParamEffect: a successful parameter-setting governance message leaves exactly the value it names
+// (a zero or absent fee means "no fee", as the handlers document). Used by C08 and by C18's sweep.
+func ParamEffect(e *eng.Engine, t *eng.TxRec, prop, where string) {
+	if !t.OK || len(t.Msgs) != 1 {
+		return
+	}
+	post := t.Post.V()
+	bad := func(f string, a ...interface{}) {
+		e.Violate(prop, "parameter-effect", where+": "+fmt.Sprintf(f, a...))
+	}
+	feeWant := func(denom string, amt string, positive bool) string {
+		if !positive {
+			return "none"
+		}
+		return amt + denom
+	}
+	feeGot := func(c interface {
+		GetDenom() string
+		GetAmount() string
+	}, isNil bool) string {
+		if isNil {
+			return "none"
+		}
+		return c.GetAmount() + c.GetDenom()
+	}
+	switch x := t.Msgs[0].(type) {
+	case *basetypes.MsgUpdateClassFee:
+		want := "none"
+		if x.Fee != nil {
+			want = feeWant(x.Fee.Denom, x.Fee.Amount.String(), x.Fee.IsPositive())
+		}
+		got := "none"
+		if post.ClassFee != nil && post.ClassFee.Fee != nil {
+			got = feeGot(post.ClassFee.Fee, false)
+		}
+		if got != want {
+			bad("UpdateClassFee(%v) succeeded but the stored class fee is %s (expected %s)", x.Fee, got, want)
+		}
+	case *baskettypes.MsgUpdateBasketFee:
+		want := "none"
+		if x.Fee != nil {
+			want = feeWant(x.Fee.Denom, x.Fee.Amount.String(), x.Fee.IsPositive())
+		}
+		got := "none"
+		if post.BasketFee != nil && post.BasketFee.Fee != nil {
+			got = feeGot(post.BasketFee.Fee, false)
+		}
+		if got != want {
+			bad("UpdateBasketFee(%v) succeeded but the stored basket fee is %s (expected %s)", x.Fee, got, want)
+		}
+	case *markettypes.MsgGovSetFeeParams:
+		if post.FeeParams == nil || post.FeeParams.BuyerPercentageFee != x.Fees.BuyerPercentageFee || post.FeeParams.SellerPercentageFee != x.Fees.SellerPercentageFee {
+			bad("GovSetFeeParams(%q,%q) succeeded but the stored fee params are %v", x.Fees.BuyerPercentageFee, x.Fees.SellerPercentageFee, post.FeeParams)
+		}
+	case *baskettypes.MsgUpdateDateCriteria:
+		b := post.BasketByDenom[x.Denom]
+		if b == nil {
+			bad("UpdateDateCriteria(%s) succeeded for an unknown basket", x.Denom)
+			return
+		}
+		w, g := x.NewDateCriteria, b.DateCriteria
+		same := (w == nil || (w.MinStartDate == nil && w.StartDateWindow == nil && w.YearsInThePast == 0)) == (g == nil || (g.MinStartDate == nil && g.StartDateWindow == nil && g.YearsInThePast == 0))
+		if same && w != nil && g != nil {
+			switch {
+			case w.MinStartDate != nil:
+				same = g.MinStartDate != nil && g.MinStartDate.Seconds == w.MinStartDate.Seconds && g.MinStartDate.Nanos == w.MinStartDate.Nanos
+			case w.StartDateWindow != nil:
+				same = g.StartDateWindow != nil && g.StartDateWindow.Seconds == w.StartDateWindow.Seconds && g.StartDateWindow.Nanos == w.StartDateWindow.Nanos
+			case w.YearsInThePast != 0:
+				same = g.YearsInThePast == w.YearsInThePast
+			}
+		}
+		if !same {
+			bad("UpdateDateCriteria(%s) succeeded but the stored criteria %v differ from the message's %v", x.Denom, g, w)
+		}
+	case *basetypes.MsgAddCreditType:
+		if ct := post.CreditTypes[x.CreditType.Abbreviation]; ct == nil || ct.Name != x.CreditType.Name || ct.Unit != x.CreditType.Unit || ct.Precision != x.CreditType.Precision {
+			bad("AddCreditType(%s) succeeded but the stored credit type is %v", x.CreditType.Abbreviation, ct)
 		}
 	}
 }
